@@ -25,6 +25,7 @@ ASSUMPTIONS = [
     "code outside the lal and naza modules (standard library) is not walked: function literals passed to it are assumed to be called synchronously with the caller's locks held; methods of lal/naza types matching a standard-library interface method are followed when such an object is passed; objects stored inside standard-library wrappers (bufio around a connection) and calls made by reflection (fmt verbs calling String/Error) are not followed",
     "locks of the standard library are not tracked (assumed leaf locks)",
     "the analysed build is the production one (no verif tag, pkg/innertest excluded)",
+    "publication order: publication = a call into the consumer package (logic) that retains the object, a go statement, a channel send, a map store under a lock; 'shared' = reached by another goroutine through the published object (per type, not per instance); only plain stores count as writes (address-taking calls are followed into lal/naza code, not into the standard library); guessed standard-library callbacks are ignored for this fact; the Coq-checked traces unroll loops twice and are capped at 512 per function (coverage.publication_order.truncated_functions), order across activations beyond that is decided by the translator's walk (pub_walk_violations)",
 ]
 FULL_OUTPUT = True
 
@@ -35,7 +36,7 @@ BASELINE_V = os.path.join(ROOT, "coq", "theories", "Gen", "LockGraph.v")
 PROP_V = os.path.join(ROOT, "coq", "theories", "Properties", "C20.v")
 KNOWN_LEAK_IDS = {"(*nazalog.logger).Out": "C20-naza-log-lock-leak"}
 # race reports whose innermost lal frame (either side) is listed here are a known finding; any other report is a violation
-KNOWN_RACE_SITES = {"gb28181.(*PsUnpacker).Dispose": "C20-gb28181-unpacker-stat-race"}
+KNOWN_RACE_SITES = {}
 
 
 def gen_cases(tier, rng):
@@ -135,6 +136,39 @@ def parse_graph_v(path):
 
 # ----------------------------------------------------------------------------
 
+def pub_traces_safe(pub):
+    """independent python version of Lock/PubOrder.v safeb over the extracted traces"""
+    owner = pub.get("field_owner", {})
+    shared = set(pub.get("shared_fields", {}))
+    covers = set(tuple(c) for c in pub.get("covers", []))
+
+    def exempt(t, f):
+        for x in pub.get("exempt", []):
+            if x["published"] in (t, "*") and (x["field"] == f or (x["field"].endswith(".*") and f.startswith(x["field"][:-1]))):
+                return True
+        return False
+
+    def hazard(pubd, f):
+        return [t for t in pubd if (t + "|" + f) in shared and (t, owner.get(f)) in covers and not exempt(t, f)]
+
+    for tr in pub.get("traces", []):
+        pubd = []
+        for e in tr["events"]:
+            if e["kind"] == "pub":
+                pubd.append(e["type"])
+            elif e["kind"] == "wr":
+                h = hazard(pubd, e["field"])
+                if h:
+                    return False, (e["field"], h[0], tr["func"], tr)
+            else:
+                pubd = e.get("pubs", []) + pubd
+                for f in e.get("writes", []):
+                    h = hazard(pubd, f)
+                    if h:
+                        return False, (f, h[0], tr["func"], tr)
+    return True, None
+
+
 def coqc(args, cwd, timeout=300):
     return vf.sh(["timeout", str(timeout), "coqc"] + args, cwd=cwd, timeout=timeout + 30)
 
@@ -206,7 +240,7 @@ def run(ctx, cases, cov, violations, known_hits, notes):
     py_acyclic = cyc is None
 
     # 3. Coq: compile the regenerated graph and re-check Properties/C20.v against it
-    rc1, log1 = coqc(["-Q", fresh, "LalFresh", "-w", "-notation-overridden", out_v], cwd=fresh, timeout=120)
+    rc1, log1 = coqc(["-Q", os.path.join(vf.COQ, "theories"), "Lal", "-Q", fresh, "LalFresh", "-w", "-notation-overridden", out_v], cwd=fresh, timeout=120)
     src = open(PROP_V).read()
     marker = "From Lal Require Import Gen.LockGraph."
     if marker not in src:
@@ -264,6 +298,35 @@ def run(ctx, cases, cov, violations, known_hits, notes):
                                          dict(goroutine=2, runs="any method that writes the field under the mutex, concurrently")]))
         reported = True
 
+    # 5b. publication order: a plain write of a field other goroutines reach, after the object was published
+    pub = g.get("publication") or {}
+    cov["publication_order"] = dict(sites=len(pub.get("publication_sites", [])), types=len(pub.get("types", [])),
+                                    shared_field_pairs=len(pub.get("shared_fields", {})), traces=len(pub.get("traces", [])),
+                                    trace_functions=g["stats"].get("publication_trace_functions"),
+                                    truncated_functions=g["stats"].get("publication_traces_truncated_functions"),
+                                    walk_violations=len(pub.get("violations", [])),
+                                    covered_by_reviewed_exemptions=len(pub.get("exempted", [])))
+    seen_pairs = set()
+    for v in pub.get("violations", []):
+        key = (v["published"], v["func"])
+        if key in seen_pairs or len(seen_pairs) >= 5:
+            continue
+        seen_pairs.add(key)
+        cov["oracle_failed"] = cov.get("oracle_failed", 0) + 1
+        violation("oracle", "write of %s in %s (%s) after %s was published at %s" % (v["field"], v["func"], v["written_at"], v["published"], v["published_at"]),
+                  dict(oracle=False, broken=None, why="publication order: unsynchronised write of a shared field after the object was handed to other goroutines",
+                       pair=dict(published=v["published"], published_at=v["published_at"], field=v["field"], written_at=v["written_at"], func=v["func"]),
+                       failing_schedule=[dict(goroutine=1, runs=v["chain"], then="publishes %s at %s, then writes %s at %s without a lock" % (
+                                              v["published"], v["published_at"], v["field"], v["written_at"])),
+                                         dict(goroutine=2, reaches_the_field_by=v["read_or_written_elsewhere_by"])]))
+        reported = True
+    py_traces_ok, bad_trace = pub_traces_safe(pub)
+    cov["oracle_evaluated"] += 1
+    if not py_traces_ok and not pub.get("violations"):
+        violation("oracle", "an extracted construction trace writes %s after publishing %s (%s)" % bad_trace[:3],
+                  dict(oracle=False, broken=None, why="publication order (trace check)", trace=bad_trace[3]))
+        reported = True
+
     # 6. lock leaks and sites the translator could not attribute
     for leak in g["lock_leaks"][:5]:
         violation("oracle", "function returns holding a lock it acquired: %s" % leak,
@@ -295,7 +358,8 @@ def run(ctx, cases, cov, violations, known_hits, notes):
         reported = True
 
     # 8. Coq and python must agree; a failing re-check that nothing above explains is reported as such
-    if coq_ok != (py_acyclic and not g["unguarded"] and not g["unresolved"] and not g["lock_leaks"]):
+    if coq_ok != (py_acyclic and not g["unguarded"] and not g["unresolved"] and not g["lock_leaks"]
+                  and not pub.get("violations") and py_traces_ok):
         violation("proof", "Coq re-check (%s, failing %s) and the python reference (acyclic=%s, unguarded=%d) disagree" % (
             "ok" if coq_ok else "failed", failing, py_acyclic, len(g["unguarded"])),
             dict(broken="theorem %s on the regenerated graph" % failing, log=(log1 + log2)[-3000:]), True)
